@@ -27,7 +27,7 @@ m = {
     "version": 1,
     "setup_cmd": "./setup.sh",
     "hooks": {"guard": "zvt_verif", "enable": "none needed: route V reads /repo sources and rustc's macro expansion, route K links public items; no hook commits", "baseline_off_cmd": "cd /repo && cargo test --workspace --no-fail-fast --offline", "source_commits": [], "add_only": True},
-    "engines": [{"name": "kani-errcodes", "path": "/verif/lib/kani_codes.py", "serves_properties": ["C20"], "kind_free_text": "COMPLETE over its domain (loop-free harness over kani::any::<u8>(), 1051 CBMC checks): Kani 0.68 harness K3 (kani_codes/) on the real zvt crate discharges the contract `ErrorMessages::from_u8(c) == em_from_u8(c)` that Verus unit U6 assumes of its one external_body repository function, for all 256 result codes, against spec/tables/errcodes.json (table.rs regenerated from it on every run); a returned variant also carries the code it was found under. Vacuity guard: two kani::cover! (Some and None reachable) and a non-zero check count. A failure yields the code, replayed on the real code by kani_codes/src/bin/replay.rs"}, {"name": "kani-twins", "path": "/verif/lib/kani_twin.py", "serves_properties": ["C01", "C02", "C03", "C04", "C14", "C16", "C17"], "kind_free_text": "BOUNDED stand-in, never counted as proved: 22 Kani 0.68 harnesses (kani/) on the real zvt_builder crate (domains stated per harness in lib/kani_twin.py BOUNDS). (a) asked for a concrete failing input when Verus refutes a leaf obligation (length styles, integer/BCD/tag encodings), replayed against the real code by ./replay; (b) in the thorough tier run as an independent cross-check; (c) when the deductive check of C01/C02/C04/C16/C17 ends undecided (rewritten body, unsupported construct), a harness that fails AND replays on the real code is reported as a VIOLATION with that input - a harness that passes leaves the outcome undecided"}, {"name": "verus-contracts", "path": "/verif/check", "serves_properties": sorted(pm.keys()), "kind_free_text": "Verus 0.2026.09.13 on units assembled by /verif/tool (zx) from /repo's working tree on every run"}],
+    "engines": [{"name": "kani-errcodes", "path": "/verif/lib/kani_codes.py", "serves_properties": ["C20"], "kind_free_text": "COMPLETE over its domain (loop-free harness over kani::any::<u8>(), 1051 CBMC checks): Kani 0.68 harnesses K3 (kani_codes/) on the real zvt crate discharges the contract `ErrorMessages::from_u8(c) == em_from_u8(c)` that Verus unit U6 assumes of its one external_body repository function, for all 256 result codes, against spec/tables/errcodes.json (table.rs regenerated from it on every run); a returned variant also carries the code it was found under. Vacuity guard: two kani::cover! (Some and None reachable) and a non-zero check count. Second harness errmsg_fingerprint: Display of each listed code has the length, first and last byte of the frozen message text (spec/tables/errcodes.json `messages`; a fingerprint, NOT the full text). A failure yields the code, replayed on the real code by kani_codes/src/bin/replay.rs"}, {"name": "kani-twins", "path": "/verif/lib/kani_twin.py", "serves_properties": ["C01", "C02", "C03", "C04", "C14", "C16", "C17"], "kind_free_text": "BOUNDED stand-in, never counted as proved: 22 Kani 0.68 harnesses (kani/) on the real zvt_builder crate (domains stated per harness in lib/kani_twin.py BOUNDS). (a) asked for a concrete failing input when Verus refutes a leaf obligation (length styles, integer/BCD/tag encodings), replayed against the real code by ./replay; (b) in the thorough tier run as an independent cross-check; (c) when the deductive check of C01/C02/C04/C16/C17 ends undecided (rewritten body, unsupported construct), a harness that fails AND replays on the real code is reported as a VIOLATION with that input - a harness that passes leaves the outcome undecided"}, {"name": "verus-contracts", "path": "/verif/check", "serves_properties": sorted(pm.keys()), "kind_free_text": "Verus 0.2026.09.13 on units assembled by /verif/tool (zx) from /repo's working tree on every run"}],
     "checks": checks,
     "not_applicable": na,
     "notes": notes.get("notes", ""),
